@@ -1,6 +1,7 @@
 import I18n.Props.C08
 import I18n.Lemmas.MetaDeb
 import I18n.Lemmas.MetaBinary
+import I18n.Lemmas.MetaBlame
 import I18n.Spec.Metamorphic
 import I18n.Generated.BinaryReads
 /-!
@@ -226,6 +227,30 @@ theorem po_vs_mo_check {F₁ F₂ : Type} (p : Parts κ τ) (statOk : Bool)
     simp
   rw [hext]
   exact key
+
+/-! ## 4b. why the PO file of the PO-versus-MO clause is taken in msgfmt order
+
+`unusual-character-in-translation` reports each character once per file, under the first message (in file order) whose
+translation has it.  WHAT is reported is independent of the order of the messages; WHO carries it is not.  (The same
+holds for `inconsistent-number-of-plural-forms`, which names the first two differing counts.)  An MO file is sorted by
+msgfmt; for a PO file in another order these two diagnostics may name another message — `po_vs_mo` above compares the
+same `ctx`, i.e. the same entries in the same order, and the check compares PO files in msgfmt order exactly and PO files in
+any other order up to these two diagnostics. -/
+
+/-- the set of unusual characters reported for a file does not depend on the order of its messages -/
+theorem unusual_characters_order_invariant {μ : Type} (l1 l2 : List (μ × List (List Char))) (h : l1.Perm l2) (c : Char) :
+    c ∈ (blame [] l1).flatMap (·.2) ↔ c ∈ (blame [] l2).flatMap (·.2) := by
+  rw [blame_chars, blame_chars]
+  constructor
+  · rintro ⟨hf, m, hm, hs⟩
+    exact ⟨hf, m, h.mem_iff.mp hm, hs⟩
+  · rintro ⟨hf, m, hm, hs⟩
+    exact ⟨hf, m, h.mem_iff.mpr hm, hs⟩
+
+/-- … but the message that is blamed does: two messages with the same unusual character, in either order -/
+theorem blame_is_order_sensitive :
+    ∃ l1 l2 : List (Nat × List (List Char)), l1.Perm l2 ∧ blame [] l1 ≠ blame [] l2 :=
+  ⟨[(1, [['\x07']]), (2, [['\x07']])], [(2, [['\x07']]), (1, [['\x07']])], List.Perm.swap _ _ _, by decide⟩
 
 /-! ## 5. packages -/
 
